@@ -15,6 +15,7 @@ import (
 
 func init() {
 	vpRegister("c13_steps", vpH_c13_steps)
+	vpRegister("c13_long", vpH_c13_long)
 }
 
 // vpWantStep describes what one input entry must become.
@@ -238,4 +239,70 @@ func vpH_c13_steps() {
 		sb, has := vpJGet(b, "steps")
 		vpAssert(has && vpJKind(sb) == 4 && vpJLen(sb) == len(want), "the marshalled pipeline has a steps array with one element per entry")
 	}
+}
+
+// Long step lists: one step per entry and one warning leaf per fallback also at
+// the sizes where a threshold in the code would flip (sizes next to the integer
+// constants that occur in the step-list code, read from the current SSA, and
+// the bound itself). Every entry is the same small document, so the cost grows
+// only linearly with the size.
+func vpH_c13_long() {
+	n := vpBoundarySize("*steps.go,*step_group.go,*step.go,*parser.go,*pipeline.go", vpParam("max"))
+	var mk func() any
+	var kind int
+	fallback := false
+	switch vpInt(0, 2) {
+	case 0: // unknown mapping steps: each falls back with a warning
+		mk = func() any { return vpMapOf("mystery", "x") }
+		kind, fallback = vpKUnknown, true
+	case 1: // plain command steps: no warning
+		mk = func() any { return vpMapOf("command", "c") }
+		kind = vpKCommand
+	default: // a recognised step with a malformed field: falls back with a warning
+		mk = func() any { return vpMapOf("command", "c", "plugins", "not-a-list") }
+		kind, fallback = vpKUnknown, true
+	}
+	var seq []any
+	for i := 0; i < n; i++ {
+		seq = append(seq, mk())
+	}
+	if seq == nil {
+		seq = []any{}
+	}
+	inGroup := vpBool()
+	var doc any = seq
+	if inGroup {
+		doc = []any{vpMapOf("group", "g", "steps", seq)}
+	}
+	p := new(Pipeline)
+	err := ordered.Unmarshal(doc, p)
+	usable := err == nil || warning.Is(err)
+	vpAssert(usable, "long lists of malformed or unrecognised steps never abort the parse")
+	if !usable {
+		return
+	}
+	steps := p.Steps
+	if inGroup {
+		vpAssert(len(steps) == 1, "the group is one step")
+		if len(steps) != 1 {
+			return
+		}
+		g, ok := steps[0].(*GroupStep)
+		vpAssert(ok, "a group with any number of unrecognised children stays a group")
+		if !ok {
+			return
+		}
+		steps = g.Steps
+	}
+	vpAssert(len(steps) == n, "exactly one step per entry of the input sequence, at every list length")
+	for i := range steps {
+		vpAssert(steps[i] != nil && vpKindOf(steps[i]) == kind, "every step of a long list has the expected kind")
+	}
+	want := 0
+	if fallback {
+		want = n
+	}
+	vpAssert(vpCountLeaves(err) == want, "the warning reports each fallback exactly once, at every list length")
+	b, merr := json.Marshal(p)
+	vpAssert(merr == nil && vpJKind(b) == 5, "a long usable pipeline marshals to JSON")
 }
